@@ -73,6 +73,10 @@ def oracle_corr(ctx, c, res):
             ctx.violate(key + '|get_range', 'get_range() is not the range given', c, c.get('range'), res.get('range'))
     data = {'cp': has_tab, 'h': c['H'] is not None, 's': c['S'] is not None,
             'g': c['H'] is not None and c['S'] is not None}
+    for kind, a in (res.get('cp_arrays') or {}).items():
+        if a.get('outside') and has_tab and 'exc' not in a:
+            ctx.violate(key + '|array-outside:' + kind, 'get_CpoR accepted an array-like temperature argument with a member outside the valid range',
+                        dict(c, array=kind, T=a['T']), 'error', a['v'])
     for i, T in enumerate(c['evalTs']):
         inside = lo <= T <= hi
         for p in ('cp', 'h', 's', 'g'):
